@@ -274,6 +274,25 @@ TMetrics ==
       ELSE UNCHANGED <<cnt, pcnt>>)
   /\ UNCHANGED vars /\ UNCHANGED <<ips, jadds, nats>> /\ Adv
 
+(* A measurement period that ends while requests are being served (the scenario ends periods in a
+   storm during its waves; it runs in a process of its own and the model state is not advanced).
+   Whatever the interleaving, one period's printed figures are consistent with each other: an address
+   enters its per-type set, its country count and its NAT set in ONE critical section, so the
+   per-country counts add up to the total, the known types do not exceed it, and the NAT sets hold
+   at least one and at most `total` addresses when the total is not zero. *)
+RECURSIVE SumN(_, _)
+SumN(q, i) == IF i > Len(q) THEN 0 ELSE q[i].n + SumN(q, i + 1)
+RECURSIVE SumTypes(_, _)
+SumTypes(m, S) == IF S = {} THEN 0 ELSE LET t == CHOOSE x \in S : TRUE IN m["log:snowflake-ips-" \o t] + SumTypes(m, S \ {t})
+MidRight(m) ==
+  LET total == m["log:snowflake-ips-total"]
+      nats3 == m["log:snowflake-ips-nat-restricted"] + m["log:snowflake-ips-nat-unrestricted"] + m["log:snowflake-ips-nat-unknown"]
+  IN /\ SumN(m.cc, 1) = total
+     /\ SumTypes(m, KnownTypes) <= total
+     /\ nats3 <= total
+     /\ (total > 0 => nats3 >= 1)
+TMid == Is("metrics-mid") /\ MidRight(Ev.m) /\ UNCHANGED vars /\ Keep /\ Adv
+
 (* A scenario whose client polls were byte-identical (same offer, NAT type and fingerprint, as an AMP
    cache re-fetch or a retry would be): its events cannot be attributed to clients by content, so only
    the counts at quiescence are judged - OneOfferPerPoll / OnePollPerOffer / NoCrossWire as numbers:
@@ -288,7 +307,7 @@ TOutcome ==
 TNext ==
   \/ TReset \/ TAdd \/ TMatch \/ TOfferGate \/ TSent \/ TWOffer \/ TForwarded \/ TGot
   \/ TWTimeout \/ TWLocked \/ TWClaimed \/ TPResp \/ TPRejected \/ TCAnswer \/ TCTimeout \/ TCPre \/ TCCleanup \/ TCResp
-  \/ TALookup \/ TASendGate \/ TSilentSend \/ TSilentGet \/ TASent \/ TADropped \/ TAResp \/ TTick \/ TEnd \/ TMetrics \/ TMLocked \/ TDebug \/ TJournal \/ TOutcome
+  \/ TALookup \/ TASendGate \/ TSilentSend \/ TSilentGet \/ TASent \/ TADropped \/ TAResp \/ TTick \/ TEnd \/ TMetrics \/ TMLocked \/ TDebug \/ TJournal \/ TOutcome \/ TMid
 
 TSpec == TInit /\ [][TNext]_tvars
 
